@@ -56,7 +56,7 @@ def ubsan_class(msg):
 
 def normalise_func(name):
     name = re.sub(r"^nl_f\d+b?$", "nl_fN", name)        # generated function names are seed dependent
-    name = re.sub(r"^nl_(t\d+_\w+)$", r"nl_\1", name)   # template functions keep their names
+    name = re.sub(r"^(\w+?)__f\d+b?$", r"\1__fN", name)  # ... also those of an imported module (m1__f2)
     return name
 
 
